@@ -3,6 +3,7 @@ package rules
 import (
 	"fmt"
 	"go/ast"
+	"go/token"
 	"go/types"
 	"reflect"
 	"sort"
@@ -702,6 +703,164 @@ func init() {
 		Run: func(c *core.Ctx) []ob {
 			out := scanErrStore(c)
 			out = append(out, control(c, "ERRSTORE", scanErrStore, "(powCache).Gen")...)
+			return out
+		}})
+}
+
+// SUBCOPY — a ShallowCopy does not share a component that has a ShallowCopy of its own.
+//
+// A type offers ShallowCopy because it owns scratch memory that two goroutines must not share. A ShallowCopy of a
+// compound object that copies such a component by reference (`basisExtenderQ1toQ2: eval.basisExtenderQ1toQ2`) hands
+// both copies the same scratch buffers: "shallow copies can be used concurrently" no longer holds.
+//
+// Rule: in every method named ShallowCopy, no field of the receiver whose type (or the type it points to) has a
+// ShallowCopy method is handed to the copy as it is (`F: recv.F`, or `c.F = recv.F`); it goes through
+// `recv.F.ShallowCopy()` or is rebuilt. Whole-struct copies (`*eval`, `c := *recv`) are followed by such a rebuild for
+// each of these fields.
+func scanSubCopy(c *core.Ctx) []ob {
+	var out []ob
+	n := 0
+	// a ShallowCopy that returns its receiver says the object is read-only: sharing it is what it asks for
+	identityCopiers := map[*types.Func]bool{}
+	c.FuncDecls(func(pk *packages.Package, file *ast.File, fd *ast.FuncDecl) {
+		if fd.Body == nil || fd.Recv == nil || fd.Name.Name != "ShallowCopy" || len(fd.Body.List) != 1 || len(fd.Recv.List) == 0 || len(fd.Recv.List[0].Names) == 0 {
+			return
+		}
+		ret, ok := fd.Body.List[0].(*ast.ReturnStmt)
+		if !ok || len(ret.Results) != 1 {
+			return
+		}
+		if id, ok := unparen(ret.Results[0]).(*ast.Ident); ok && pk.TypesInfo.Uses[id] == pk.TypesInfo.Defs[fd.Recv.List[0].Names[0]] {
+			if fn, ok := pk.TypesInfo.Defs[fd.Name].(*types.Func); ok {
+				identityCopiers[fn] = true
+			}
+		}
+	})
+	c.FuncDecls(func(pk *packages.Package, file *ast.File, fd *ast.FuncDecl) {
+		if fd.Body == nil || fd.Recv == nil || fd.Name.Name != "ShallowCopy" || fileIsTestSupport(c.Program, fd.Pos()) || inExamples(pk) {
+			return
+		}
+		if len(fd.Recv.List) == 0 || len(fd.Recv.List[0].Names) == 0 {
+			return
+		}
+		info := pk.TypesInfo
+		recv := info.Defs[fd.Recv.List[0].Names[0]]
+		if recv == nil {
+			return
+		}
+		st := structOf(recv.Type())
+		if st == nil {
+			return
+		}
+		fkey := core.FuncKey(pk, fd)
+		hasSC := func(t types.Type) bool {
+			for _, tt := range []types.Type{deref(t), types.NewPointer(deref(t))} {
+				if o, _, _ := types.LookupFieldOrMethod(tt, true, nil, "ShallowCopy"); o != nil {
+					if f, ok := o.(*types.Func); ok {
+						return !identityCopiers[funcOrigin(f)]
+					}
+				}
+			}
+			return false
+		}
+		// fields of the receiver with a ShallowCopy of their own (interfaces excluded: the dynamic type decides)
+		var comp []string
+		for i := 0; i < st.NumFields(); i++ {
+			f := st.Field(i)
+			if _, isIface := f.Type().Underlying().(*types.Interface); isIface {
+				continue
+			}
+			if hasSC(f.Type()) {
+				comp = append(comp, f.Name())
+			}
+		}
+		if len(comp) == 0 {
+			return
+		}
+		isRecvField := func(e ast.Expr, name string) bool {
+			e = unparen(e)
+			if u, ok := e.(*ast.UnaryExpr); ok && u.Op == token.AND {
+				e = unparen(u.X)
+			}
+			if s, ok := e.(*ast.StarExpr); ok {
+				e = unparen(s.X)
+			}
+			se, ok := e.(*ast.SelectorExpr)
+			if !ok || se.Sel.Name != name {
+				return false
+			}
+			id, ok := unparen(se.X).(*ast.Ident)
+			return ok && info.Uses[id] == recv
+		}
+		for _, name := range comp {
+			n++
+			key := fmt.Sprintf("SUBCOPY:%s#%s", fkey, name)
+			shared, rebuilt := token.NoPos, false
+			wholeCopy := false
+			ast.Inspect(fd.Body, func(x ast.Node) bool {
+				switch v := x.(type) {
+				case *ast.KeyValueExpr:
+					if id, ok := v.Key.(*ast.Ident); ok && id.Name == name {
+						if isRecvField(v.Value, name) {
+							shared = v.Pos()
+						} else {
+							rebuilt = true
+						}
+					}
+				case *ast.AssignStmt:
+					for i, l := range v.Lhs {
+						if se, ok := unparen(l).(*ast.SelectorExpr); ok && se.Sel.Name == name && i < len(v.Rhs) {
+							if isRecvField(v.Rhs[i], name) {
+								shared = v.Pos()
+							} else {
+								rebuilt = true
+							}
+						}
+					}
+					for _, r := range v.Rhs {
+						if s, ok := unparen(r).(*ast.StarExpr); ok {
+							if id, ok := unparen(s.X).(*ast.Ident); ok && info.Uses[id] == recv {
+								wholeCopy = true
+							}
+						}
+						if id, ok := unparen(r).(*ast.Ident); ok && info.Uses[id] == recv {
+							wholeCopy = true
+						}
+					}
+				case *ast.CompositeLit:
+					// unkeyed or embedded whole copy: T{*recv...}
+					for _, el := range v.Elts {
+						if s, ok := unparen(el).(*ast.StarExpr); ok {
+							if id, ok := unparen(s.X).(*ast.Ident); ok && info.Uses[id] == recv {
+								wholeCopy = true
+							}
+						}
+					}
+				}
+				return true
+			})
+			props := []string{"C10"}
+			switch {
+			case shared != token.NoPos && !rebuilt:
+				out = append(out, withProps(violOb("SUBCOPY", key, c.Rel(shared), fmt.Sprintf("%s hands the component %s (whose type has a ShallowCopy of its own, i.e. owns scratch memory) to the copy by reference: two shallow copies used concurrently share its buffers", fkey, name)), props...))
+			case wholeCopy && !rebuilt:
+				out = append(out, withProps(violOb("SUBCOPY", key, c.Rel(fd.Pos()), fmt.Sprintf("%s copies the whole receiver and never rebuilds the component %s (whose type has a ShallowCopy of its own): the copies share its scratch memory", fkey, name)), props...))
+			default:
+				out = append(out, withProps(okOb("SUBCOPY", key, c.Rel(fd.Pos()), "the component is shallow-copied or rebuilt, not shared", true), props...))
+			}
+		}
+	})
+	c.Stats["subcopy_fields"] = n
+	return out
+}
+
+func init() {
+	core.Register(&core.Rule{Name: "SUBCOPY", Props: []string{"C10"},
+		Doc: "in every ShallowCopy method, a field of the receiver whose (pointed-to) type has a ShallowCopy method of its own is not handed to the copy by reference: it goes through its ShallowCopy or is rebuilt",
+		Run: func(c *core.Ctx) []ob {
+			out := scanSubCopy(c)
+			out = append(out, control(c, "SUBCOPY", scanSubCopy, "(outerEval).ShallowCopy")...)
+			out = append(out, core.Floor("SUBCOPY", nil, "components with a ShallowCopy of their own", c.Stats["subcopy_fields"], 10)...)
 			return out
 		}})
 }
